@@ -33,6 +33,12 @@ impl ReplayFile {
     /// Runs the stored case: follows the realised trace; if the tree has changed so that the trace cannot be
     /// followed any more, falls back to the schedule that originally produced it.
     fn run(&self, opts: &RunOpts) -> (Case, Outcome) {
+        if self.trace.is_empty() {
+            // hand-written file: run the schedule it specifies
+            let case = self.case.clone();
+            let out = run_case(&case, opts);
+            return (case, out);
+        }
         let mut case = self.case.clone();
         case.sched = Sched::Trace { choices: self.trace.clone() };
         let out = run_case(&case, opts);
@@ -210,7 +216,7 @@ fn run_worker(id: &str, oracle_id: &str, seed: u64, worker: u64, cases: u32, sto
     let mut stats = WorkerStats::default();
     let counting = std::cell::Cell::new(true);
     let stats_cell = std::cell::RefCell::new(&mut stats);
-    let cfg = Config { cases, failure_persistence: None, max_shrink_iters: 3000, max_global_rejects: 100_000, rng_algorithm: RngAlgorithm::ChaCha, rng_seed: RngSeed::Fixed(seed), ..Config::default() };
+    let cfg = Config { cases, failure_persistence: None, max_shrink_iters: 3000, max_global_rejects: 0, rng_algorithm: RngAlgorithm::ChaCha, rng_seed: RngSeed::Fixed(seed), ..Config::default() };
     let rng = TestRng::from_seed(RngAlgorithm::ChaCha, &mix(seed, worker));
     let mut runner = TestRunner::new_with_rng(cfg, rng);
     let opts = RunOpts::default();
@@ -219,7 +225,8 @@ fn run_worker(id: &str, oracle_id: &str, seed: u64, worker: u64, cases: u32, sto
     let prof_id = id.to_string();
     let result = runner.run(&strat, |raw| {
         if stop.load(Ordering::Relaxed) && counting.get() {
-            return Ok(());
+            // another worker has found a violation: wind this one down (a single reject aborts the runner)
+            return Err(TestCaseError::reject("stopped"));
         }
         let case = norm::normalize(&raw, &nopts);
         if case.op_count() == 0 {
@@ -293,10 +300,7 @@ fn run_worker(id: &str, oracle_id: &str, seed: u64, worker: u64, cases: u32, sto
     match result {
         Ok(()) => (stats, None),
         Err(TestError::Fail(reason, raw)) => (stats, Some(Found { raw, reason: reason.message().to_string() })),
-        Err(TestError::Abort(r)) => {
-            eprintln!("worker {} aborted: {}", worker, r.message());
-            (stats, None)
-        }
+        Err(TestError::Abort(_)) => (stats, None),
     }
 }
 
@@ -583,6 +587,13 @@ fn main() {
             cmd_check(&id, &tier, get("--cases").and_then(|s| s.parse().ok()), workers, has("--strict-harness"), get("--oracle"))
         }
         Some("replay") => cmd_replay(args.get(2).map(|s| s.as_str()).unwrap_or(""), has("--quiet")),
+        Some("fuzz-decode") => {
+            // dv fuzz-decode <ID> <artifact>: decode a libFuzzer input exactly as the sched_fuzz target does, run it,
+            // and (if it violates <ID>) write a replay file and print the VIOLATION line
+            let id = args.get(2).cloned().unwrap_or_default();
+            let path = args.get(3).cloned().unwrap_or_default();
+            cmd_fuzz_decode(&id, &path)
+        }
         Some("entropy") => {
             measure_entropy(args.get(2).map(|s| s.as_str()).unwrap_or("C01"), 2000);
             0
@@ -597,6 +608,43 @@ fn main() {
         }
     };
     std::process::exit(code);
+}
+
+fn cmd_fuzz_decode(id: &str, path: &str) -> i32 {
+    let data = match std::fs::read(path) {
+        Ok(d) => d,
+        Err(e) => {
+            eprintln!("cannot read {}: {}", path, e);
+            return 2;
+        }
+    };
+    let prof = profiles::profile(id);
+    let allow_panic = prof.shape == gen::Shape::Panic;
+    let raw = match dv::decode::case_from_bytes(&prof, &data) {
+        Some(c) => c,
+        None => {
+            let mut seed = [0u8; 32];
+            let mut x: u64 = 0xcbf2_9ce4_8422_2325;
+            for (i, b) in data.iter().enumerate() {
+                x = (x ^ *b as u64).wrapping_mul(0x100_0000_01B3);
+                seed[i % 32] ^= (x >> 32) as u8;
+            }
+            let strat = gen::case_strategy(&prof);
+            let mut runner = TestRunner::new_with_rng(Config::default(), TestRng::from_seed(RngAlgorithm::ChaCha, &seed));
+            strat.new_tree(&mut runner).unwrap().current()
+        }
+    };
+    let case = norm::normalize(&raw, &norm::NormOpts { allow_panic });
+    let out = run_case(&case, &RunOpts { record_history: true, ..Default::default() });
+    print_outcome(&case, &out);
+    if let Some(v) = violations_for(&out, id).first() {
+        let rdir = verif_dir().join("replays").join(id);
+        let p = write_replay(id, &case, &out, v, 0, &rdir);
+        println!("VIOLATION property={} replay={}", id, p.display());
+        return 1;
+    }
+    println!("no violation of {} on this input", id);
+    0
 }
 
 #[allow(dead_code)]
